@@ -3,6 +3,7 @@
 From Coq Require Import NArith ZArith List Bool.
 From Mpc Require Import Gen.Consts Base.Label Base.Aes Circuit.Circuit Circuit.Garble Circuit.GarbleProof Circuit.RunC01.
 Import ListNotations.
+From Mpc Require Gen.State Base.StateExpected Base.StateCheck Base.StatePkgs.
 
 (* For every block function pi (hence every AES key of every length), every
    random stream rnd (hence every R with its S bit forced and every
@@ -55,3 +56,16 @@ Theorem C01_input_overwrite_refuted :
                   overwrite_circuit [true; true] = Some [None].
 Proof. exact input_overwrite_refuted. Qed.
 Print Assumptions C01_input_overwrite_refuted.
+
+(* STATE INVENTORY (finite obligation on the model regenerated from the source, checked by
+   computation).  The struct fields and package-level variables of the Go packages this
+   property is anchored in — circuit, ot — as emitted from /repo's current
+   source by harness/gen_state.go (Gen/State.v) are exactly those the models above were written
+   against (Base/StateExpected.v).  A new field or variable (a cache, a memo, a pool, a counter,
+   a changed field type) is state the models do not have: this obligation then breaks and the
+   property is no longer shown to hold until the change has been reviewed against the model. *)
+Theorem C01_state_inventory :
+  Mpc.Base.StateCheck.state_unchanged Mpc.Gen.State.state_inventory Mpc.Base.StateExpected.expected_state
+    Mpc.Base.StatePkgs.pkgs_C01 = true.
+Proof. vm_compute. reflexivity. Qed.
+Print Assumptions C01_state_inventory.
